@@ -66,6 +66,7 @@ type Exec struct {
 	initReq  abci.RequestInitChain
 	last     *AppState
 	step     int
+	wallNs    int64 // the honest wall clock: the time of the block being executed
 	poolGifts *big.Int
 	awardedNow map[string]bool // holders that receive an award in the BeginBlock being checked
 	minChanged bool
@@ -132,7 +133,9 @@ func (e *Exec) addViols(vs []core.Violation) {
 func (e *Exec) call(r *replica, fn func()) (pan interface{}) {
 	r.calls++
 	core.SetMapSeed(core.SplitMix64(r.cfg.MapSeed ^ (r.calls * 0x9E3779B97F4A7C15)))
+	core.SetWallClock(e.wallNs + r.cfg.ClockSkewNs + int64(r.calls))
 	defer func() {
+		core.ClearWallClock()
 		core.ClearMapSeed()
 		if x := recover(); x != nil {
 			pan = x
@@ -392,6 +395,7 @@ func (e *Exec) abstractState(st *AppState) string {
 func (e *Exec) runInitChain() {
 	e.step = 0
 	e.initReq = BuildInitChain(e.kr, &e.tr.Genesis)
+	e.wallNs = e.tr.Genesis.TimeUnix * int64(time.Second)
 	var first string
 	var firstResp abci.ResponseInitChain
 	for i, r := range e.reps {
@@ -547,6 +551,7 @@ func (e *Exec) runBlock(bi int) {
 		t = e.times[h-1]
 	}
 	e.times[h] = t
+	e.wallNs = t
 	e.res.Stats.SimNanos += t - e.times[h-1]
 	e.step = (bi + 1) * 1000
 	rec := &blockRecord{}
